@@ -11,7 +11,7 @@ proved set.  Terms are over the reals; f64 constants are exact rationals; consta
 sub-expressions are folded in exact rational arithmetic; transcendental functions are
 uninterpreted with ground axiom instances.
 """
-import math, random, sys, time, json
+import math, random, sys, time, json, re
 from fractions import Fraction
 import z3
 
@@ -281,12 +281,10 @@ class Sweeper:
                         axioms.extend([z3.Implies(a > 0, e > 0), z3.Implies(z3.And(a > -1, a < 0), e < 0), z3.Implies(a == 0, e == 0)])
                     elif n[2] == 'abs':
                         axioms.append(e == z3.If(a >= 0, a, -a))
-                    elif n[2] == 'tanh':
-                        axioms.extend([e < 1, e > -1, z3.Implies(a > 0, e > 0), z3.Implies(a < 0, e < 0), z3.Implies(a == 0, e == 0)])
-                    elif n[2] == 'cosh':
-                        axioms.append(e >= 1)
-                    elif n[2] == 'sinh':
-                        axioms.extend([z3.Implies(a > 0, e > 0), z3.Implies(a < 0, e < 0), z3.Implies(a == 0, e == 0)])
+                    elif n[2] in ('tanh', 'cosh', 'sinh'):
+                        sh, ch, th = self.uf('sinh')(a), self.uf('cosh')(a), self.uf('tanh')(a)
+                        axioms.extend([ch * ch - sh * sh == 1, ch >= 1, th * ch == sh, th < 1, th > -1,
+                                       z3.Implies(a > 0, sh > 0), z3.Implies(a < 0, sh < 0), z3.Implies(a == 0, sh == 0)])
                     elif n[2] == 'exp_m1':
                         axioms.extend([e > -1, z3.Implies(a > 0, e > 0), z3.Implies(a < 0, e < 0), z3.Implies(a == 0, e == 0)])
                     elif n[2] == 'atan':
@@ -499,6 +497,101 @@ class Sweeper:
             if ok:
                 self.canon[b] = (a, d)
                 self.samples.append({'kind': 'direct', 'claim': 'n%d = lam^%d * n%d (%s)' % (b, d, a, name), 'answer': 'unsat', 'relative_tolerance': tolerance})
+        return self.results()
+
+    def direct_ackermann(self, timeout=60000):
+        """direct proof of each output relation over the full cones with the uninterpreted function applications
+        replaced by variables (Ackermann style): applications of one function whose arguments are PROVED equal
+        (z3, in topological order) share a variable; the remaining query is pure QF_NRA (nlsat applies)."""
+        nodes, dag = self.nodes, self.dag
+        res_ok = {}
+        gvar = {}      # node -> z3 var of its application group
+        groups = {}    # (fname, sig) -> [(argnode, var)]
+        cache = {}
+        ax = []
+
+        def TT(x):
+            if x in cache: return cache[x]
+            n = nodes[x]
+            if dag.cval[x] is not None: e = self.rat(dag.cval[x])
+            elif n[0] == 'var': e = self.lam if n[1] == LAMVAR else self.rv(x)
+            elif n[0] in ('add', 'sub', 'mul', 'div'):
+                a, b = TT(n[1]), TT(n[2])
+                e = {'add': a + b, 'sub': a - b, 'mul': a * b, 'div': a / b}[n[0]]
+            elif n[0] == 'neg': e = -TT(n[1])
+            elif n[0] == 'powi':
+                a = TT(n[1]); k = abs(n[2]); e = z3.RealVal(1)
+                for _ in range(k): e = e * a
+                if n[2] < 0: e = 1 / e
+            else:
+                e = gvar[x]
+            cache[x] = e
+            return e
+
+        def mk_solvers():
+            return [z3.Then('simplify', 'solve-eqs', 'qfnra-nlsat').solver(), z3.Solver()]
+
+        def prove_eq(ea, eb, to):
+            for s in mk_solvers():
+                s.set('timeout', to)
+                s.add(self.lam > 0)
+                for v in self.repvar.values(): s.add(v > 0)
+                for f in ax: s.add(f)
+                s.add(ea != eb)
+                self.stats['rel_queries'] += 1
+                try:
+                    r = self.check(s)
+                except z3.Z3Exception:
+                    continue
+                if r == z3.unsat:
+                    self.stats['rel_unsat'] += 1
+                    return True
+                if r == z3.sat:
+                    return False
+            return False
+
+        live = set()
+        stack = [x for a, b, d, nm, wa, wb in dag.outs for x in (a, b)]
+        while stack:
+            x = stack.pop()
+            if x in live: continue
+            live.add(x); stack.extend(dag.children(x))
+        for i in sorted(live):
+            n = nodes[i]
+            self.canon.setdefault(i, (i, 0))
+            if n[0] not in ('un', 'powf') or dag.cval[i] is not None: continue
+            fname = n[2] if n[0] == 'un' else 'powf_%r' % n[2]
+            arg = n[1]
+            key = (fname, sig(self.val[arg]))
+            ea = TT(arg)
+            var = None
+            for (arg2, v2) in groups.get(key, []):
+                if arg2 == arg or prove_eq(ea, TT(arg2), 5000):
+                    var = v2; break
+            if var is None:
+                var = z3.Real('f_%s_%d' % (re.sub(r'\W', '_', fname), i))
+                groups.setdefault(key, []).append((arg, var))
+                if fname == 'exp': ax.append(var > 0)
+                if fname in ('sinh', 'cosh', 'tanh'):
+                    # relate the hyperbolic functions of the same (proved equal) argument
+                    trio = {}
+                    for f2 in ('sinh', 'cosh', 'tanh'):
+                        for (arg3, v3) in groups.get((f2, key[1]), []):
+                            if arg3 == arg or prove_eq(ea, TT(arg3), 5000): trio[f2] = v3
+                    trio[fname] = var
+                    if 'sinh' in trio and 'cosh' in trio: ax.append(trio['cosh'] * trio['cosh'] - trio['sinh'] * trio['sinh'] == 1)
+                    if 'cosh' in trio: ax.append(trio['cosh'] >= 1)
+                    if all(k in trio for k in ('sinh', 'cosh', 'tanh')): ax.append(trio['tanh'] * trio['cosh'] == trio['sinh'])
+                    if 'tanh' in trio and 'cosh' in trio and 'sinh' not in trio:
+                        pass
+                if fname == 'sqrt': ax.extend([var >= 0, var * var == ea])
+            gvar[i] = var
+        for a, b, d, name, wa, wb in dag.outs:
+            if a == b and d == 0: continue
+            if prove_eq(TT(b), TT(a) * self.lampow(d), timeout):
+                self.canon[b] = (a, d)
+                self.samples.append({'kind': 'direct (UF applications replaced by variables after proving argument equality)',
+                                     'claim': 'n%d = lam^%d * n%d (%s)' % (b, d, a, name), 'answer': 'unsat', 'uf_groups': sum(len(v) for v in groups.values())})
         return self.results()
 
     def prove_at(self, v, u, d, depth, timeout):
